@@ -407,14 +407,25 @@ def c11(res, rng, tier, replay=None):
                 '(?i)' + rng.choice(inv_lits + ['1', '.', '-']) if x < 0.92 else g.component(1)
             parts.append(a)
         exprs.append(rng.choice(['', '', '/']) + '/'.join(parts))
+    for pre in ['(?i)1', '(?i)2024-', '(?i).', '(?i)1/', '(?i)-_']:
+        for mid in ['{(?-i)q1}', '<(?-i)rc:2>', '(?-i)q', '{(?-i)a,(?-i)a}', '{x}', '<y:1>']:
+            exprs.append(pre + mid)
+            exprs.append(pre + mid + '/z')
     items = stage_globs(exprs)
     note_shapes(res, items)
     built = stage_match(items, rng)
     tie_fields(res, items, ['text'], 'C11 text()')
-    # add the reported text as a path
+    # add the reported text and its case variants as paths
     extra = [it for it in built if it.if_.get('text', 'V').startswith('I')]
-    outs = W.run_impl(['mm %s %s' % (hx(it.e), it.if_['text'][1:]) for it in extra])
+    for it in extra:
+        txt = W.unhx(it.if_['text'][1:])
+        it.paths = [txt] + [v for v in (txt.swapcase(), txt.upper(), txt.lower()) if v != txt]
+    outs = W.run_impl(['mm %s %s' % (hx(it.e), ' '.join(hx(p) for p in it.paths)) for it in extra])
     for it, o in zip(extra, outs):
+        if o in ('err', 'panic'):
+            continue
+        it.imm = o.split('|')
+        o = it.imm[0]
         txt = W.unhx(it.if_['text'][1:])
         res.evaluations += 1
         res.nontrivial.add((it.e, txt))
@@ -835,6 +846,25 @@ def c05(res, rng, tier, replay=None):
                 res.known_hits[cls] = res.known_hits.get(cls, 0) + 1
             else:
                 res.oracle_fail('panic in an operation on a built glob', {'cmd': c.split(' ')[0], 'glob': e, 'impl': o[:200]})
+    # combinators: any() of built globs (and of the degenerate patterns) and every query on them
+    pool = [it.e for it in built[:400]] + ['/', '', '**', '/**', 'a/**', '<a/:1,2>', '{a,a/b}', 'a/b', '*']
+    fams = [rng.sample(pool, rng.choice([1, 2, 2, 3])) for _ in range(sizes(tier, 600, 6000))]
+    fams += [['/', x] for x in ['a/**', '<a/:1,2>', '{a,a/b}', 'a/b', '**', '*', '']] + [[x, '/'] for x in ['a/**', '<a/:1,2>', '{a,a/b}']]
+    acmds = ['any ' + ' '.join(hx(e) for e in f) for f in fams]
+    for f, a, b in zip(fams, W.run_impl(acmds), W.run_model(acmds)):
+        res.evaluations += 1
+        res.nontrivial.add(tuple(f))
+        ha, fa = W.fields(a)
+        hb, fb = W.fields(b)
+        cls = next((c05_class(e) for e in f if c05_class(e)), None)
+        bad = ha in ('panic', 'crashed', 'missing') or (ha == 'ok' and any(v == '!' for v in fa.values()))
+        model_bad = hb in ('panic', 'model-timeout', 'model-stack-overflow') or (hb == 'ok' and any(v == '!' for v in fb.values()))
+        if bad and not (cls and cls in kfs and model_bad):
+            res.oracle_fail('panic while building or querying a combinator', {'any': f, 'impl': a[:300], 'class': cls})
+        elif ha == 'ok' and hb == 'ok' and not cls:
+            for k in ('depth', 'text', 'root', 'exh'):
+                if (fa.get(k) == '!') != (fb.get(k) == '!'):
+                    res.tie_fail('C05 a query on a combinator panics in only one of implementation and model', {'any': f, 'field': k})
     for cls, kf in kfs.items():
         o = W.run_impl(['glob ' + hx(kf['witness']['glob'])])[0]
         known_line(res, kf, o.startswith(('panic', 'crashed')) or '=!' in o, 'glob=%r outcome=%s' % (kf['witness']['glob'][:60], o[:30]))
@@ -1052,6 +1082,14 @@ def c07(res, rng, tier, replay=None):
         if e not in seen and len(e) < 80 and ('{' in e or '<' in e or rng.random() < 0.3):
             seen.add(e)
             exprs.append(e)
+    # flags in force *around* a branch (never inside one: flags are textual, a flag inside a branch leaks into what follows)
+    for pre in ['(?i)a', '(?i)a(?-i)', '(?-i)a(?i)', 'a(?i)', '(?i)a/(?-i)', '(?i)']:
+        for mid in ['{b,c}', '{b}', '<b:1,2>', '<b:1>', '{b,c/d}', '<b/:1,2>', '{bc,B}']:
+            for post in ['', 'd', '(?i)d', '(?-i)d', '/d']:
+                e = pre + mid + post
+                if e not in seen:
+                    seen.add(e)
+                    exprs.append(e)
     items = stage_globs(exprs)
     note_shapes(res, items)
     built = stage_match(items, rng, (10, 8))
@@ -1063,7 +1101,9 @@ def c07(res, rng, tier, replay=None):
         rng.shuffle(nodes)
         for nd in nodes[:2]:
             s0, n0 = nd['span']
-            pre, post = eb[:s0], eb[s0 + n0:]
+            # the span of a token begins with the flag directives that precede it: they stay in place
+            lead = re.match(rb'^(\(\?[-i]+\))*', eb[s0:s0 + n0]).end()
+            pre, post = eb[:s0 + lead], eb[s0 + n0:]
             if nd['k'] == 'A':
                 members = []
                 for b in nd['ch']:
@@ -1475,7 +1515,7 @@ def c18(res, rng, tier, replay=None):
     missing = specials - metas - {47, 92}
     if missing:
         res.oracle_fail('a character the parser treats specially is not reported as a meta-character', {'characters': [chr(c) for c in sorted(missing)]})
-    alpha = list('?*$:<>()[]{},') * 2 + list('/-!ai. \n\t') + ['é', '愛', 'ǅ', '(?i)', '[a-c]', '{a,b}', '<a:1>', '**', 'x']
+    alpha = list('?*$:<>()[]{},') * 2 + list('/-!ai. \n\t=|~#&^%@+;\'"') + ['é', '愛', 'ǅ', '(?i)', '[a-c]', '{a,b}', '<a:1>', '**', 'x']
     strs, seen = [], set()
     while len(strs) < n:
         s = ''.join(rng.choice(alpha) for _ in range(rng.randint(0, 10)))
